@@ -24,7 +24,7 @@ def tasks(tier):
                 t.append(dict(module="twin", fn="h_observe", shape=dict(K=(1 if q and cons else (2 if pol in twin.loop.HEAVY and cons else K)), policy=pol, vars=["boxed"], cons=cons, level=level), opts=o))
     # rows with slack variables: the collected path lives in the internal space, the result in the user's
     for cons in (["ge"], ["ranged"]):
-        t.append(dict(module="twin", fn="h_observe", shape=dict(K=1 if q else 2, policy="DualNorm", vars=["boxed"], cons=cons, level="INFO"), opts=o))
+        t.append(dict(module="twin", fn="h_observe", shape=dict(K=1, policy="DualNorm", vars=["boxed"], cons=cons, level="INFO"), opts=o))
     # problem functions that are non-finite at some points: a displayed row evaluates the
     # rejected candidate too and must swallow the failure
     for cons in ([], ["eq0"]):
